@@ -253,7 +253,11 @@ func drive(args []string) int {
 			if err := cmd.Wait(); err != nil || !gotStats {
 				// did the interpreter take the process down (stack overflow, concurrent map
 				// writes, ...)? then the run in progress does it again in a process of its own
-				if lastStart >= 0 && crashesAlone(self, *prop, *tier, seed, lastStart) {
+				watchdog := false
+				if ee, ok := err.(*exec.ExitError); ok && ee.ExitCode() == 3 {
+					watchdog = true // the worker's own watchdog: slow or stuck, not dead
+				}
+				if !watchdog && lastStart >= 0 && crashesAlone(self, *prop, *tier, seed, lastStart) {
 					mu.Lock()
 					viols = append(viols, crashViol(*prop, *tier, seed, lastStart))
 					crashed++
@@ -443,6 +447,9 @@ func crashesAlone(self, prop, tier string, seed uint64, run int) bool {
 	defer cancel()
 	cmd := exec.CommandContext(ctx, self, "work", "-prop", prop, "-tier", tier, "-seed", fmt.Sprint(seed), "-shard", fmt.Sprint(run), "-nshard", "1000000000")
 	out, err := cmd.Output()
+	if ee, ok := err.(*exec.ExitError); ok && ee.ExitCode() == 3 {
+		return false // the worker's own watchdog ended it: slow or stuck, not dead - inconclusive
+	}
 	return err != nil && ctx.Err() == nil && !strings.Contains(string(out), `"type":"stats"`)
 }
 
